@@ -13,6 +13,7 @@ def errJ : Err → String
   | .type => "TypeError"
   | .assertion => "AssertionError"
   | .index => "IndexError"
+  | .key => "KeyError"
 
 def jKey (j : Json) : R Key :=
   match j with
@@ -75,6 +76,24 @@ def mkRows : List Rat → List (List Nat) → List (List Rat) → R (List Row)
     pure (⟨-b, c.zip v⟩ :: rest)
   | _, _, _ => throw "full: length mismatch"
 
+def ofNames (sys : Sys) : Json := ofNats (sys.eqs.map (·.name))
+
+def imageOfEq (sys : Sys) (name : Nat) : List (GridId × List Nat) :=
+  match findEq sys.eqs name with
+  | some e => e.image
+  | none => []
+
+def jPer (l : List Nat) : R PerEntity :=
+  match l with
+  | [c, f, n] => pure ⟨c, f, n⟩
+  | _ => throw "bad per"
+
+def jPairs (j : Json) : R (List (Nat × Nat)) :=
+  jList (fun x => do
+    match ← jList jNat x with
+    | [a, b] => pure (a, b)
+    | _ => throw "bad pair") j
+
 def step (st : St) (j : Json) : R (St × Json) := do
   let op ← fStr j "op"
   match op with
@@ -83,35 +102,48 @@ def step (st : St) (j : Json) : R (St × Json) := do
     let vars ← (← fNatss j "vars").mapM (fun l => match l with
       | [id, name, grid, c, f, n] => pure (mkVar grids id name grid ⟨c, f, n⟩)
       | _ => throw "bad var")
-    pure (⟨⟨grids, vars, [], []⟩, []⟩, Json.str "ok")
+    pure (⟨init grids vars, []⟩, Json.str "ok")
   | "set_eq" =>
     let name ← fNat j "name"
     let grids ← fNats j "grids"
-    let per ← fNats j "per"
-    match per with
-    | [c, f, n] =>
-      match setEquation st.sys name grids ⟨c, f, n⟩ with
-      | .error e => pure (st, err (errJ e))
-      | .ok sys' =>
-        let img := match findEq sys'.eqs name with
-          | some e => e.image
-          | none => []
-        pure ({ st with sys := sys' }, obj [("image", ofIdx img)])
-    | _ => throw "bad per"
+    let per ← jPer (← fNats j "per")
+    match setEquation st.sys name grids per with
+    | .error e => pure (st, obj [("err", .str (errJ e)), ("eqs", ofNames st.sys)])
+    | .ok sys' =>
+      pure ({ st with sys := sys' }, obj [("image", ofIdx (imageOfEq sys' name)), ("eqs", ofNames sys')])
+  | "update_eq" =>
+    let name ← fNat j "name"
+    let grids ← jOpt (jList jNat) (fieldD j "grids" .null)
+    let per ← match ← jOpt (jList jNat) (fieldD j "per" .null) with
+      | none => pure none
+      | some l => some <$> jPer l
+    let (sys', e?) := updateEquation st.sys name grids per
+    match e? with
+    | some e => pure ({ st with sys := sys' }, obj [("err", .str (errJ e)), ("eqs", ofNames sys')])
+    | none =>
+      pure ({ st with sys := sys' }, obj [("image", ofIdx (imageOfEq sys' name)), ("eqs", ofNames sys')])
   | "remove_eq" =>
     let name ← fNat j "name"
     match removeEquation st.sys name with
-    | .error e => pure (st, err (errJ e))
-    | .ok sys' => pure ({ st with sys := sys' }, Json.str "ok")
+    | .error e => pure (st, obj [("err", .str (errJ e)), ("eqs", ofNames st.sys)])
+    | .ok sys' => pure ({ st with sys := sys' }, obj [("eqs", ofNames sys')])
   | "full" =>
     let slot ← fNat j "slot"
     let b ← fRats j "b"
     let cols ← fNatss j "cols"
     let vals ← fRatss j "vals"
     let rows ← mkRows b cols vals
-    if rows.length != ((st.sys.eqs.map (·.total)).sum) then
-      throw s!"full: {rows.length} rows but the declared sizes sum to {(st.sys.eqs.map (·.total)).sum}"
-    let tbl := splitFull st.sys.eqs rows
+    -- "lens": actual operator lengths per equation when they differ from the declared ones
+    let lens? ← jOpt jPairs (fieldD j "lens" .null)
+    let lens : List (Nat × Nat) := match lens? with
+      | some l => l
+      | none => st.sys.eqs.map (fun (e : Equation) => (e.name, e.total))
+    if lens.map (·.1) != st.sys.eqs.map (·.name) then throw "full: lens do not list the equations in order"
+    if rows.length != ((lens.map (·.2)).sum) then
+      throw s!"full: {rows.length} rows but the sizes sum to {(lens.map (·.2)).sum}"
+    let tbl := match lens? with
+      | some l => splitBy l rows
+      | none => splitFull st.sys.eqs rows
     pure ({ st with full := (slot, tbl) :: st.full }, Json.str "ok")
   | "assemble" =>
     let slot ← fNat j "slot"
@@ -133,4 +165,4 @@ def step (st : St) (j : Json) : R (St × Json) := do
           pure (st', obj [("b", ofRats o.resOnly), ("idx", ofIdx sys'.lastIdx)])
   | _ => throw s!"unknown op {op}"
 
-def main : IO Unit := runDriver (⟨⟨[], [], [], []⟩, []⟩ : St) step
+def main : IO Unit := runDriver (⟨init [] [], []⟩ : St) step
